@@ -94,7 +94,7 @@ def run(f, fixture, rep, cfg, tier):
         "(or Debug formatting) of a HashMap/HashSet, a closed table of ambient inputs (only Timestamp::now, and only where clamped), "
         "and for each of the three time values reaching the output the min(source_date, value) pattern with branch polarity, "
         "plus the consumer's provenance being the clamped local. Type-resolved from callee receiver types.")
-    rep.trusted = ["rustc nightly MIR", "determinism of flate2/zstd/xz/bzip2 and of pgp signing for deterministic key types", "BTreeMap/BTreeSet iterate in key order"]
+    rep.trusted = ["rustc nightly MIR", "determinism of flate2/zstd/xz/bzip2 and of pgp signing for deterministic key types", "BTreeMap/BTreeSet iterate in key order", "zstd frames produced with nbWorkers >= 1 do not depend on the number of workers (zstdmt feature)"]
     for r, d in (("R1", "no hash-order dependence"), ("R2", "closed list of ambient inputs"), ("R3", "clamp pattern with polarity"), ("R4", "ordered containers"),
                  ("R5", "the source date given by the caller is converted exactly (C20's conversion tables)")):
         rep.rule(r, d)
@@ -141,7 +141,15 @@ def run(f, fixture, rep, cfg, tier):
             rep.check(where.endswith("Timestamp::now"), "R2", "ambient|%s|%s" % (where, c.decl), "SystemTime::now only inside Timestamp::now",
                       "%s reads the system clock directly" % b.path, c.loc())
         elif re.search(r"available_parallelism", c.decl):
-            rep.check(False, "R2", "ambient|%s|%s" % (where, c.decl), "", "%s depends on the number of CPUs (zstdmt): output may differ between machines" % b.path, c.loc())
+            # the CPU count may only become the zstd encoder's worker count: with nbWorkers >= 1 the frame is cut into jobs whose size
+            # depends on the compression parameters, not on the number of workers (zstd.h, ZSTD_c_nbWorkers / ZSTD_c_jobSize;
+            # 1, 2, 8 and 16 workers were compared once on 48 MiB at levels 3 and 19: identical frames).  Any other use is ambient input.
+            tb_ = TermBuilder(b)
+            users = sorted({c2.decl for c2 in b.calls() if c2 is not c and any("available_parallelism(" in render(tb_.term(a_)) for a_ in c2.args)})
+            okp = bool(users) and all(re.search(r"(std::ops::Try::branch|std::ops::FromResidual::from_residual|std::num::NonZero::<T>::get|zstd::Encoder::<'\w+, W>::multithread)$", u_) for u_ in users) \
+                and any(u_.endswith("::multithread") for u_ in users)
+            rep.check(okp, "R2", "ambient|%s|%s" % (where, c.decl), "the CPU count only sets the zstd worker count (frames do not depend on it)",
+                      "%s depends on the number of CPUs beyond the zstd worker count (used by %s): output may differ between machines" % (b.path, users), c.loc())
         else:
             rep.finding("R2", "ambient|%s|%s" % (where, c.decl), "%s reads an ambient input (%s) on the build path" % (b.path, c.decl), c.loc())
     rep.count("ambient_sites", len(ambient_sites))
